@@ -15,6 +15,7 @@ lake workspace, so concurrent checks do not interfere).
   Trainer.is_trainable (C13; effects declared)              the decision of Trainer.Tr.isTrainable
   SleepIntervalAdjustor.adjust_impl (C16)                   the sleep argument of Adjust.Adj.adjust
   TimeController.sleep (C06, C16)                           Clock.sleepReal
+  RandomReplacementBuffer.is_full (C11)                     Buffer.Rrb.isFull
 
 Outcome per function: `tied` (the theorem checks), `unavailable` (the function left the translatable
 subset or renamed what it reads: no claim, the dynamic correspondence still covers it), or a
@@ -41,6 +42,7 @@ import Pamiq.Model.Sched
 import Pamiq.Model.Bookkeep
 import Pamiq.Model.Trainer
 import Pamiq.Model.Adjust
+import Pamiq.Model.Buffer
 namespace Pamiq.Gen
 open Pamiq
 """
@@ -69,6 +71,7 @@ EXPECTED = {
     "controllerIsActive": (("is_shutdown","Bool"),),
     "envStepDone": (("terminated","Bool"),("truncated","Bool")),
     "clockSleep": (("is_paused","Bool"),("time_scale","Rat"),("secs","Rat")),
+    "rrbIsFull": (("current_size","Rat"),("max_size","Rat")),
     "adjustImpl": (("last_reset_time","Rat"),("time_to_wait","Rat"),("perf_counter","Rat")),
     "isTrainable": (("training_condition_data_user_is_none","Bool"),("len_data_user","Rat"),("min_buffer_size","Rat"),("count_data_added_since","Rat"),("min_new_data_count","Rat")),
 }
@@ -183,6 +186,13 @@ theorem adjustImpl_is_model (a : Adjust.Adj) (t : Adjust.Tl) (env : Adjust.AdjEn
   unfold adjustImpl Adjust.Adj.adjust
   simp only [h, gt_iff_lt, decide_eq_true_eq]
   split <;> rfl
+"""),
+    (("C11",), "data/impls/random_replacement_buffer.py", "RandomReplacementBuffer", "is_full", "rrbIsFull", (), "",
+     """/-- "Full" is `current_size >= max_size` (the test that switches `add` from filling to replacing). -/
+theorem rrbIsFull_is_model (b : Buffer.Rrb Nat) :
+    rrbIsFull { current_size := (b.size : Rat), max_size := (b.maxSize : Rat) } = b.isFull := by
+  unfold rrbIsFull Buffer.Rrb.isFull
+  simp only [ge_iff_le, Rat.natCast_le_natCast]
 """),
     (("C20",), "gym/types.py", "EnvStep", "done", "envStepDone", (), "",
      """/-- An episode has ended iff the step was terminated or truncated (the test of `Gym.affect`). -/
